@@ -348,3 +348,68 @@ def C17_indet_guard(ctx=None):
         all(f'not self.{nm}(' in src for nm, src in order)
     out.append(ob('C17.S-hub-order', 'the hub skips a compound whose sub-lists fail before it asks match_indeterminate', ok3, detail=order))
     return out
+
+
+def C06_dispatch(ctx=None):
+    """The parse_* contracts are stated over matches of the token patterns compiled in contracts/patterns.py.  On every run: (S1) every
+    SelectorPattern is compiled as re.compile(pattern, re.I | re.X | re.U); (S2) the token table gives each key the PAT_* constant the sidecar
+    uses; (S3) parse_selectors calls each method only under a test of `key` against exactly those keys."""
+    import re as _re
+    out = []
+    ptree, ppath = module_tree('soupsieve.css_parser')
+    cls = classes(ptree)
+    init = method(cls['SelectorPattern'], '__init__')
+    comp = [ast.unparse(n.value) for n in ast.walk(init) if isinstance(n, ast.Assign) and 're.compile' in ast.unparse(n.value)]
+    out.append(ob('C06.S-token-flags', 'SelectorPattern compiles its pattern with re.I | re.X | re.U', comp == ['re.compile(pattern, re.I | re.X | re.U)'], detail=comp))
+    from contracts import patterns as PT
+    # S2: (key, PAT_NAME) pairs of the token table, including the special pseudo table
+    table = {}
+    for n in ast.walk(ptree):
+        if isinstance(n, ast.Call) and isinstance(n.func, ast.Name) and n.func.id == 'SelectorPattern' and len(n.args) == 2 and \
+                isinstance(n.args[0], ast.Constant) and isinstance(n.args[1], ast.Name):
+            table[n.args[0].value] = n.args[1].id
+        if isinstance(n, ast.Tuple) and len(n.elts) == 4 and isinstance(n.elts[0], ast.Constant) and isinstance(n.elts[2], ast.Name) and \
+                isinstance(n.elts[3], ast.Name) and n.elts[3].id == 'SelectorPattern':
+            table[n.elts[0].value] = n.elts[2].id
+    want = {'id': 'PAT_ID', 'class': 'PAT_CLASS', 'pseudo_dir': 'PAT_PSEUDO_DIR', 'pseudo_lang': 'PAT_PSEUDO_LANG', 'pseudo_contains': 'PAT_PSEUDO_CONTAINS'}
+    ok2 = all(table.get(k) == v for k, v in want.items()) and all(
+        getattr(PT, v).pattern == getattr(__import__('soupsieve.css_parser', fromlist=['x']), v) and getattr(PT, v).flags & (_re.I | _re.X) == (_re.I | _re.X)
+        for v in want.values())
+    out.append(ob('C06.S-token-table', 'each token key is bound to the PAT_* constant the sidecar compiles', ok2, detail=[{k: table.get(k) for k in want}]))
+    # S3: call sites
+    ps = method(cls['CSSParser'], 'parse_selectors')
+    sites = {}
+
+    def visit_stmt(st, tests):
+        if isinstance(st, ast.If):
+            for b in st.body:
+                visit_stmt(b, tests + [ast.unparse(st.test)])
+            for b in st.orelse:
+                visit_stmt(b, tests + ['not (' + ast.unparse(st.test) + ')'] if False else tests)
+            return
+        if isinstance(st, (ast.For, ast.While, ast.With, ast.Try)):
+            for b in getattr(st, 'body', []) + getattr(st, 'orelse', []) + getattr(st, 'finalbody', []):
+                visit_stmt(b, tests)
+            for h in getattr(st, 'handlers', []):
+                for b in h.body:
+                    visit_stmt(b, tests)
+            return
+        for n in ast.walk(st):
+            if isinstance(n, ast.Call) and isinstance(n.func, ast.Attribute) and isinstance(n.func.value, ast.Name) and n.func.value.id == 'self' and \
+                    n.func.attr in PT.DISPATCH:
+                sites.setdefault(n.func.attr, []).append([t for t in tests if t.startswith('key ')])
+    for st_ in ps.body:
+        visit_stmt(st_, [])
+    ok3 = True
+    for meth, keys in PT.DISPATCH.items():
+        got = sites.get(meth, [])
+        for tests in got:
+            last = tests[-1] if tests else ''
+            named = set(_re.findall(r"'([a-z_]+)'|\"([a-z_]+)\"", last))
+            named = {a or b for a, b in named}
+            if named != set(keys):
+                ok3 = False
+        if not got:
+            ok3 = False
+    out.append(ob('C06.S-dispatch', 'parse_selectors calls each contracted parse_* method only for matches of its token key(s)', ok3, detail=[sites]))
+    return out
